@@ -112,8 +112,9 @@ def catalogue():
     eq("EqDataU32", [T("A", "u32"), S("B", "u16", "u16")], repr_="u32", note="repr(u32) data enum: tag 4 + 4: packed candidate")
     eq("EqDataPad", [T("A", "u8"), T("B", "u32")], repr_="u8", note="variant with padding: not packed")
     eq("EqStr", [T("A", "String"), U("B")], note="string payload")
-    et("EqMany257", [U("A"), U("B")], many=255, note="257 variants without repr: 2-byte discriminant")
-    et("EqMany256", [U("A"), U("B")], many=254, note="exactly 256 variants without repr: still a 1-byte discriminant")
+    # tier "x": generated but in no tier — a 256-arm derive expansion costs 15-45 min and up to 40 GB of CBMC per harness
+    E.append(Enum("EqMany257", [U("A"), U("B")], many=255, tier="x", note="257 variants without repr: 2-byte discriminant"))
+    E.append(Enum("EqMany256", [U("A"), U("B")], many=254, tier="x", note="exactly 256 variants without repr: still a 1-byte discriminant"))
     eq("EqExplicit", [U("A", 5), U("B", 7)], repr_="u8", note="explicit discriminants: wire = variant index, image = discriminant value")
     et("EtU8Data2", [T("A", "u8", "u8"), T("B", "u16")], repr_="u8", note="")
     et("EtU16Data", [T("A", "u16"), S("B", "u8", "u8")], repr_="u16", note="")
